@@ -474,7 +474,8 @@ def gen_patch(rng, top):
         p = rng.choice(paths)
         q = rng.choice(paths)
         marker = b"HOSTILE-MARKER-%08x" % rng.getrandbits(32)
-        kind = rng.choice(["create", "create", "modify", "delete", "rename", "copy", "mode", "create-link", "modify-canary"])
+        kind = rng.choice(["create", "create", "modify", "delete", "rename", "copy", "mode", "create-link", "modify-canary", "move-hostile-source",
+                           "move-hostile-source"])
         pre = rng.choice([(b"a/", b"b/"), (b"a/", b"b/"), (b"", b"")])
         if kind == "create":
             out.append(b"diff --git %s%s %s%s\nnew file mode %s\n--- /dev/null\n+++ %s%s\n@@ -0,0 +1 @@\n+%s\n" % (pre[0], p, pre[1], p, rng.choice([b"100644", b"100755", b"104755"]), pre[1], p, marker))
@@ -490,6 +491,18 @@ def gen_patch(rng, top):
             out.append(b"diff --git a/%s b/%s\nsimilarity index 100%%\nrename from %s\nrename to %s\n" % (p, q, p, q))
         elif kind == "copy":
             out.append(b"diff --git a/%s b/%s\nsimilarity index 100%%\ncopy from %s\ncopy to %s\n" % (p, q, p, q))
+        elif kind == "move-hostile-source":
+            # only the source is hostile (a rename removes it afterwards), the destination is an ordinary new name; with and without hunks
+            src = rng.choice([b".git/config", b".git/HEAD", b".git/canary", b".git/hooks/post-checkout", b"lnk/x", b"lnk/config", b"../canary.txt",
+                              b"../wt-shadow/victim", b".GIT/config", b"dir/../.git/config", T + b"/abs-canary"])
+            dst = rng.choice([b"stolen", b"dir/stolen", b"newdir/stolen", b"b.txt"])
+            verb = rng.choice([b"rename", b"rename", b"copy"])
+            # dulwich strips leading components from the rename/copy lines too: with and without the a/ b/ prefixes there
+            pf = rng.choice([(b"", b""), (b"a/", b"b/"), (b"a/", b"b/")])
+            body = b"diff --git a/%s b/%s\nsimilarity index %s%%\n%s from %s%s\n%s to %s%s\n" % (src, dst, rng.choice([b"100", b"90"]), verb, pf[0], src, verb, pf[1], dst)
+            if rng.random() < 0.4:
+                body += b"--- a/%s\n+++ b/%s\n@@ -1 +1 @@\n-%s\n+%s\n" % (src, dst, rng.choice([b"victim", b"canary", b"git canary", b"ref: refs/heads/master"]), marker)
+            out.append(body)
         else:
             out.append(b"diff --git a/%s b/%s\nold mode 100644\nnew mode 100755\n" % (p, p))
     return b"".join(out), [marker]
